@@ -68,6 +68,7 @@ type Node struct {
 	fencedInc   int
 	// C05: highest term this node answered NewTerm for (must never go backwards, also across restarts)
 	maxTermAnswered int64
+	deletions       int // how many times the coordinator had this node delete its replica
 }
 
 func (n *Node) server() model.Server {
@@ -159,9 +160,16 @@ func (n *Node) noteLeader(term int64) {
 	n.noteReplicationFrom(term)
 }
 
+func (n *Node) deletionCount() int {
+	n.mu.Lock()
+	defer n.mu.Unlock()
+	return n.deletions
+}
+
 func (n *Node) noteDeleted() {
 	n.mu.Lock()
 	defer n.mu.Unlock()
+	n.deletions++
 	n.deleted = true
 	n.fencedValid = false
 }
@@ -622,7 +630,6 @@ func (c *Cluster) checkFenced(where string) {
 var _ = io.EOF
 var _ = os.Remove
 
-
 // ---- panics on node goroutines -------------------------------------------------------------------------------------
 
 var (
@@ -659,7 +666,6 @@ func takePanics() []string {
 	panicLog = nil
 	return out
 }
-
 
 // dbCommitOffset reads the commit offset record of a node's database through its KV handle (-1 if unavailable).
 func dbCommitOffset(k kv.KV) (off int64) {
